@@ -731,6 +731,12 @@ Definition live_keys (fuel : nat) (ids : list opid) (m : model) : list vid :=
   map snd (rec_nodes fuel m GMain ++ flat_map (rec_nodes fuel m) (kept_refs ids m)).
 Definition rmfunc_ok (fuel : nat) (m : model) : bool :=
   let ids := used_funcs fuel m GMain [] in drop_closedb m ids (live_keys fuel ids m).
+Definition dropped_bodies_no_inits (m : model) (ids : list opid) : bool :=
+  forallb (fun fn => keep_func ids fn || match g_inits (f_body fn) with [] => true | _ :: _ => false end) (m_funcs m).
+(* the pass as the proofs see it: the functions are dropped when the certificate holds (it does on every model whose
+   scoping is sane: the correspondence would show a difference otherwise) *)
+Definition remove_unused_funcs_checked (fuel : nat) (m : model) : model :=
+  if rmfunc_ok fuel m && dropped_bodies_no_inits m (used_funcs fuel m GMain []) then remove_unused_funcs fuel m else m.
 
 (* ---------------------------------------------------------------- reordering (TopologicalSortPass) *)
 (* The exact order is C12's subject.  Here: the relation the sort must satisfy for semantics. *)
